@@ -1,7 +1,8 @@
 (* Extract_C15.v — extraction of the node-table / start-up / lifecycle models for the correspondence drivers of
    C15, C16 and C20. ExtrOcamlBasic only; no Extract Constant. Compiled by the checks in a scratch directory. *)
 From Coq Require Import Extraction ExtrOcamlBasic List NArith.
-From LB Require Import Tables Startup.
+From LB Require Import Tables Startup Lifecycle.
 Extraction "model_c15.ml"
   init_bs init_ts probe_msgs startup sys_reset notice_step hl_point hl_signal hl_periph hl_train_periph hl_train_speed0
-  hl_train_periph_rc hl_train_speed_rc hl_track_state found_msgs found_rc stop_msgs canon3 set_nth nodes_from wf_from.
+  hl_train_periph_rc hl_train_speed_rc hl_track_state found_msgs found_rc stop_msgs canon3 set_nth nodes_from wf_from
+  life0 life_step life_run probe_writes globals root_addr.
